@@ -69,6 +69,19 @@ func Wide2() (string, error) {
 
 func Now() (int64, bool) { return nanotime(), true }
 
+func cycleA(n int) (int, error) {
+	if n == 0 {
+		return 0, errors.New("a")
+	}
+	return cycleB(n - 1)
+}
+
+func cycleB(n int) (int, error) { return cycleA(n) }
+
+// callers OUTSIDE a recursion cycle (an answer must not depend on what was asked before)
+func OutsideSelf() (string, error) { return Self(3) }
+func OutsideCycle() (int, error)   { return cycleA(2) }
+
 type T struct{}
 
 func (T) M() (int, error)        { return 0, nil }
